@@ -574,6 +574,15 @@ def run(ctx):
                 if not (tv[0] == "const" and tv[3] in (0, False)):
                     ok5, why5 = False, "a node which does not hold the last element carries the tail-variable flag `%s`" % show(tv)[:40]
             tv = _fields(sp[-1]).get("tail_var")
+            # a trailing list was spliced in or a trailing empty list dropped on this path: what is now the last node holds
+            # an ordinary element, not a tail variable, so it must not get the caller's flag
+            absorbed = any(e["k"] == "branch" and strip(e["cond"])[0] == "variant" and mentions(strip(e["cond"])[1], lambda y: y == P) and
+                           strip(e["cond"])[1] != P and
+                           (e["value"] == LIST or (isinstance(e["value"], tuple) and LIST in e["value"] and len(e["value"]) == 1))
+                           for e in p.events)
+            if absorbed and tv in flags and _node_source(_fields(sp[-1])) is None:
+                ok5, why5 = False, ("after a trailing list was absorbed (spliced in / dropped as empty) the node before it still gets the "
+                                    "caller's tail-variable flag `%s`: an ordinary element is marked as the tail variable" % show(tv)[:30])
             if tv in flags:
                 flag_used = True
             elif not (tv[0] == "const" and tv[3] in (0, False)) and _node_source(_fields(sp[-1])) is None:
